@@ -259,6 +259,69 @@ RAISERS.update(_builtin_exception_raisers())
 SYNTAX_TEXT = ['{"jsonrpc":"2.0","id":1,"result":{}}', '{"jsonrpc":"2.0","id":1,"error":{"code":-32601,"message":"x"}}', "[NaN]", ":Infinity,",
                "values=[1.0, NaN]", '\n{"id":1}', "data: x", "event: message", "id: 1", "retry: 1", ":", "{}", "[]", "null", "true",
                '"', '\\"', "}{", '{"a":{"a":{"a":1}}}', "a\n\ndata: y"]
+# exception OBJECTS that carry attributes named like the fields a response is built from (code, message, data, id, error,
+# result, jsonrpc), or whose args / __str__ are unusual: whatever they carry, "a handler raised" is answered -32603
+
+
+def _attr_exc(**attrs):
+    def mk():
+        e = RuntimeError("carries attributes")
+        for k, v in attrs.items():
+            setattr(e, k, v() if callable(v) and getattr(v, "_factory", False) else v)
+        return e
+    return _raise(mk)
+
+
+def _http_error(code):
+    def mk():
+        import urllib.error
+
+        return urllib.error.HTTPError("http://example.invalid/x", code, "Not Found" if code == 404 else "Unavailable", None, None)
+    return _raise(mk)
+
+
+class _CodeMethod(Exception):
+    def code(self):  # grpc-style: the status is a METHOD
+        return 14
+
+    def details(self):
+        return "unavailable"
+
+
+class _CodeProperty(Exception):
+    @property
+    def code(self):
+        raise KeyError("no code yet")
+
+
+class _ArgsOverridden(Exception):
+    args = "not a tuple"  # type: ignore[assignment]
+
+
+def _called_process_error():
+    import subprocess
+
+    raise subprocess.CalledProcessError(3, ["tool", "--x"], output=b"o", stderr=b"e")
+
+
+def _json_decode_error():
+    json.loads("{bad")
+
+
+RAISERS.update({
+    "attr/http-404": _http_error(404), "attr/http-503": _http_error(503),
+    "attr/code-none": _attr_exc(code=None), "attr/code-32601": _attr_exc(code=-32601), "attr/code-32602": _attr_exc(code=-32602),
+    "attr/code-zero": _attr_exc(code=0), "attr/code-str": _attr_exc(code="E_FAIL"), "attr/code-float": _attr_exc(code=404.5),
+    "attr/code-true": _attr_exc(code=True), "attr/code-huge": _attr_exc(code=2 ** 70), "attr/code-list": _attr_exc(code=[1]),
+    "attr/code-method": _raise(lambda: _CodeMethod("grpc")), "attr/code-property-raises": _raise(lambda: _CodeProperty("p")),
+    "attr/message-int": _attr_exc(message=5), "attr/message-none": _attr_exc(message=None), "attr/message-bytes": _attr_exc(message=b"m"),
+    "attr/data-object": _attr_exc(data=object()), "attr/data-set": _attr_exc(data={1, 2}), "attr/id": _attr_exc(id="someone-else"),
+    "attr/error-dict": _attr_exc(error={"code": -32000, "message": "m"}), "attr/result": _attr_exc(result={}), "attr/jsonrpc": _attr_exc(jsonrpc="1.0"),
+    "attr/all": _attr_exc(code=-32000, message="m", data={"d": 1}, id=7, error={"code": 1}, result={}),
+    "attr/args-overridden": _raise(lambda: _ArgsOverridden("a")), "attr/called-process-error": _called_process_error,
+    "attr/json-decode-error": _json_decode_error,
+})
+
 # size x text edge: LONG texts (beyond any clipping budget) that also contain a lone surrogate, a non-BMP character, NUL,
 # multi-byte characters at every cut position — for every string that can end up in an error message
 EDGE_LONG = ["a" * 600 + "\udc80", "\udc80" * 700, "x" * 511 + "\ud800" + "y" * 20, "x" * 5000 + "\udfff", "\U0001f600" * 300,
